@@ -70,7 +70,8 @@ fn c17_stale_removal_one() {
     core::mem::forget(p);
 }
 
-// @check props=C17 tier=thorough
+// PARKED (not run, not claimed): thorough variant not measured after the per-loop bounds were introduced (unwind 15: no answer in 900 s)
+// @parked props=C17 tier=thorough
 // @desc remove_stale_participants(now) with two discovered participants (independent symbolic leases / last-communication times): each is removed iff ITS lease is exceeded, the other one stays, order of the survivors is kept; time_until_stale_participant(now) <= remaining lease of each
 // @bounds two discovered participants with distinct keys; full normalized domain with 0 <= last_i <= now, lease_i >= 0
 // @assume clock readings non-negative and non-decreasing; leases >= 0; participant keys distinct (add_discovered_participant replaces an entry with an equal key)
@@ -123,16 +124,23 @@ fn c17_stale_removal_two() {
 // local publications writer gets a reliable reader proxy) and its subscriptions ANNOUNCER (the local subscriptions
 // reader gets a writer proxy). The other eight add_matched_* calls of add_discovered_participant are the same code
 // shape behind the same guard; they are exercised (bit clear => nothing added) but add no proxy here.
+// The quick harnesses announce NO builtin endpoint (every add_matched_* call of add_discovered_participant then finds its
+// bit clear and adds nothing): with endpoints announced the proxies pushed into the builtin writers / readers made the
+// harness exceed 10 GB (two endpoints) / ~20 GB (all ten).
+const NO_ENDPOINTS: u32 = 0;
+#[allow(dead_code)]
 const SEDP_TWO: u32 = BuiltinEndpointSet::BUILTIN_ENDPOINT_PUBLICATIONS_DETECTOR | BuiltinEndpointSet::BUILTIN_ENDPOINT_SUBSCRIPTIONS_ANNOUNCER;
 
+#[allow(dead_code)]
 fn has_reliable_proxy(w: &crate::rtps::stateful_writer::RtpsStatefulWriter) -> bool {
     // a reliable reader proxy starts with highest_acked = 0: is_change_acknowledged(1) is false iff one exists
     !w.is_change_acknowledged(1)
 }
 
-// @check props=C17 tier=quick
-// @desc add_discovered_participant (through the guarded hook verif_add_discovered_participant) with a directly constructed SpdpDiscoveredParticipantData: symbolic local domain id, symbolic announced domain id (None / Some(any i32)), domain tag equal or unequal, the participant ignored or not, already discovered or not. It is added (list entry with the announced lease and the clock reading, announced SEDP endpoints matched) IF AND ONLY IF (id absent or equal) AND tags equal AND not ignored AND not yet discovered; otherwise the discovered list and the builtin endpoints' proxies are unchanged (different domain ids / tags never match; an ignored participant is never (re)discovered)
-// @bounds local domain id symbolic i32; announced id Option<i32> symbolic; tags "" / "t"; ignore set of 0-1 entries; discovered list of 0-1 entries; the remote participant announces two SEDP endpoints (publications detector, subscriptions announcer); empty locator lists
+// PARKED (not run, not claimed): measured with two announced SEDP endpoints: CBMC out of memory at 10 GB after 126-157 s (all ten endpoints: ~20 GB); this reduced shape (no endpoint announced) also ran out of 10 GB after 68-85 s (the cost is in add_discovered_participant itself: ten add_matched_* calls on the builtin endpoints plus the BTreeSet / list look-ups)
+// @parked props=C17 tier=quick
+// @desc add_discovered_participant (through the guarded hook verif_add_discovered_participant) with a directly constructed SpdpDiscoveredParticipantData: symbolic local domain id, symbolic announced domain id (None / Some(any i32)), domain tag equal or unequal, the participant ignored or not, already discovered or not. It is added (list entry with the announced lease and the clock reading) IF AND ONLY IF (id absent or equal) AND tags equal AND not ignored AND not yet discovered; otherwise the discovered list is unchanged (different domain ids / tags never match; an ignored participant is never (re)discovered)
+// @bounds local domain id symbolic i32; announced id Option<i32> symbolic; tags "" / "t"; ignore set of 0-1 entries; discovered list of 0-1 entries; the remote participant announces no builtin endpoint (the matching of announced SEDP endpoints is outside); empty locator lists
 // @assume the local participant is not enabled (announce_participant inside add_discovered_participant is then a no-op by its own guard; enabling announces through XTypes)
 // @assume the SpdpDiscoveredParticipantData value is constructed directly (the decoder from_bytes runs through ParameterList/DynamicData code)
 // @assume stub: tracing LevelFilter::current() returns OFF (process without a tracing subscriber; otherwise #[tracing::instrument] Debug-formats the announcement)
@@ -167,7 +175,7 @@ fn c17_spdp_add() {
         1,
         announced_id,
         if remote_tagged { String::from("t") } else { String::new() },
-        SEDP_TWO,
+        NO_ENDPOINTS,
         lease,
     );
 
@@ -179,27 +187,17 @@ fn c17_spdp_add() {
     };
     let expect_added = id_ok && (remote_tagged == local_tagged) && !ignored && !already;
     let n = listed(&p, 1);
-    let pubs = has_reliable_proxy(&p.domain_participant.builtin_publisher.dcps_publications_writer.transport_writer);
-    let sub_detector = p
-        .domain_participant
-        .builtin_subscriber
-        .dcps_subscription_reader
-        .transport_reader
-        .matched_writer_lookup(Guid::new(s1::remote_prefix(1), ENTITYID_SEDP_BUILTIN_SUBSCRIPTIONS_ANNOUNCER))
-        .is_some();
     if expect_added {
         assert!(n == 1, "C17: matching participant is discovered");
         let d = &p.domain_participant.discovered_participant_list[0];
         assert!(d.lease_duration == lease, "C17: announced lease stored");
         assert!(d.last_communication_timestamp == now, "C17: lease clock starts at the discovery time");
-        assert!(pubs && sub_detector, "C17: announced SEDP endpoints of a discovered participant are matched");
     } else {
         assert!(n == already as usize, "C17: non-matching / ignored / known participant does not change the discovered list");
         if already {
             let d = &p.domain_participant.discovered_participant_list[0];
             assert!(d.lease_duration == old_lease && d.last_communication_timestamp == old_last, "C17: existing entry untouched");
         }
-        assert!(!pubs && !sub_detector, "C17: no SEDP endpoint is matched for a participant that is not added");
     }
     assert!(p.domain_participant.discovered_participant_list.len() == n, "C17: no other entry appears");
     kani::cover!(expect_added && announced_id.is_none(), "added with the domain id absent");
@@ -211,8 +209,9 @@ fn c17_spdp_add() {
     core::mem::forget(data);
 }
 
-// @check props=C17 tier=quick
-// @desc ignore_participant(handle) on an enabled participant that has discovered that participant (or not yet) and a second one: Ok, the participant is removed from the discovered list, the other one stays, the handle is in the ignore set; a following SPDP announcement of the ignored participant (matching domain id and tag) through add_discovered_participant does NOT re-add it and matches no SEDP endpoint
+// PARKED (not run, not claimed): measured with two announced SEDP endpoints: CBMC out of memory at 10 GB after 126-157 s (all ten endpoints: ~20 GB); this reduced shape (no endpoint announced) also ran out of 10 GB after 68-85 s (the cost is in add_discovered_participant itself: ten add_matched_* calls on the builtin endpoints plus the BTreeSet / list look-ups)
+// @parked props=C17 tier=quick
+// @desc ignore_participant(handle) on an enabled participant that has discovered that participant (or not yet) and a second one: Ok, the participant is removed from the discovered list, the other one stays, the handle is in the ignore set; a following SPDP announcement of the ignored participant (matching domain id and tag) through add_discovered_participant does NOT re-add it
 // @bounds discovered list of 1-2 entries (the ignored one present or not, symbolic); one ignore + one re-announcement
 // @assume `enabled` is set directly on the participant (enable_domain_participant announces through XTypes)
 // @assume stub: announce_participant (SPDP self-announcement, ParameterList/XTypes serializer) is a no-op; it does not touch the discovered list or the ignore set
@@ -245,13 +244,9 @@ fn c17_spdp_ignored() {
     assert!(p.domain_participant.ignored_participants.contains(&h), "C17: handle recorded as ignored");
 
     // the ignored participant announces itself again (same domain, same tag)
-    let again = s1::spdp(1, Some(0), String::new(), SEDP_TWO, Duration::new(100, 0));
+    let again = s1::spdp(1, Some(0), String::new(), NO_ENDPOINTS, Duration::new(100, 0));
     p.verif_add_discovered_participant(&again, &s1::rt(Time::new(2, 0)));
     assert!(listed(&p, 1) == 0, "C17: an ignored participant is never rediscovered");
-    assert!(
-        !has_reliable_proxy(&p.domain_participant.builtin_publisher.dcps_publications_writer.transport_writer),
-        "C17: no SEDP endpoint is matched for an ignored participant"
-    );
     assert!(p.domain_participant.discovered_participant_list.len() == 1, "C17: discovered list otherwise unchanged");
     kani::cover!(known, "ignoring a discovered participant");
     kani::cover!(!known, "ignoring a not yet discovered participant");
